@@ -59,6 +59,32 @@ def gen_module(rng, d):
             L.append("\treturn 0")
         L.append("}")
         L.append("")
+    # nested ranges: a nolint comment on a whole function (or on a multi-line statement) that contains another
+    # nolint comment on one of its lines; every dereference inside the outer range stays suppressed
+    for i in range(rng.randint(0, 2)):
+        s = rng.randrange(nsrc)
+        outer_func = rng.random() < 0.5
+        if outer_func:
+            L.append(rng.choice(SPELLINGS_ON))
+        L.append("func N%d(c bool) int {" % i)
+        L.append("\tp := src%d(c)" % s)
+        if not outer_func:
+            L.append("\t" + rng.choice(SPELLINGS_ON))
+        L.append("\tif c {")
+        L.append("\t\t_ = p.V %s" % rng.choice(SPELLINGS_ON))
+        exp.append(("a/a.go", len(L), True))
+        L.append("\t\t_ = p.V")
+        exp.append(("a/a.go", len(L), True))
+        L.append("\t\treturn p.V")
+        exp.append(("a/a.go", len(L), True))
+        L.append("\t}")
+        if outer_func:
+            L.append("\treturn p.V")
+            exp.append(("a/a.go", len(L), True))
+        else:
+            L.append("\treturn 0")
+        L.append("}")
+        L.append("")
     # an exported function whose parameter is dereferenced; the importer passes nil
     sup_x = rng.random() < 0.5
     L.append("func Use(p *T) int {")
